@@ -102,6 +102,7 @@ class ListGen:
             op = r.choice(["append", "append", "remove", "append_var"])
             if op == "remove" and info["vals"]:
                 v = r.choice(info["vals"])
+                removed = False
                 out.append(f"{name}.remove({self.src(v)})" if info["t"] == "int" else None)
                 if info["t"] == "int" and r.random() < 0.5:
                     # remove through a run-time value, then use the folded length as an index bound
@@ -109,11 +110,23 @@ class ListGen:
                     out[-1] = f"{tmp} = {name}[{info['vals'].index(v)}]"
                     out.append(f"{name}.remove({tmp})")
                     self.features.add("remove-runtime-value")
+                    if r.random() < 0.6 and len(info["vals"]) >= 2:
+                        # ... and afterwards remove another element by literal: the folded length must follow both removals
+                        info["vals"].remove(v)
+                        w = self.lit("int")
+                        out.append(f"{name}.append({w})")
+                        info["vals"].append(w)
+                        first = info["vals"][0]
+                        out.append(f"{name}.remove({first})")
+                        info["vals"].remove(first)
+                        removed = True
+                        self.features.add("remove-runtime-then-literal")
                 if info["t"] != "int":
                     # remove through an element read (literal float/str arguments do not compile - known finding)
                     idx = info["vals"].index(v)
                     out[-1] = f"{name}.remove({name}[{idx}])"
-                info["vals"].remove(v)
+                if not removed:
+                    info["vals"].remove(v)
                 self.features.add("remove")
                 if info["vals"]:
                     out.append(f"mon.write({name}[len({name}) - 1])")
@@ -195,6 +208,33 @@ class ListGen:
             if "list-grow" in self.hz and info["t"] == "int":
                 self.L.append(f"{ind}{nm}.append(count)")
                 self.features.add("hz:list-grow")
+        for nm in names:
+            info = self.lists[nm]
+            if info["vals"] and r.random() < 0.4:
+                # rotate idiom: the appended element is read from the list itself
+                self.L.append(f"{ind}{nm}.append({nm}[0])")
+                self.L.append(f"{ind}{nm}.remove({nm}[0])")
+                self.L.append(f"{ind}mon.write({nm}[-1])")
+                first = info["vals"].pop(0)
+                info["vals"].append(first)
+                self.features.add("rotate-self-element")
+                break
+        if r.random() < 0.4:
+            # a one-element list emptied and refilled on every pass; a guarded append/remove pair with a negative index read
+            self.L.insert(self.L.index("count = 0"), "pending = [0]")
+            self.L.append(f"{ind}pending.remove(count - 1)")
+            self.L.append(f"{ind}pending.append(count)")
+            self.L.append(f"{ind}mon.write(pending[0])")
+            self.features.add("single-element-remove-append")
+        if r.random() < 0.4:
+            self.L.insert(self.L.index("count = 0"), "gl = [7, 8, 9]")
+            self.L.append(f"{ind}if count > 2:")
+            self.L.append(f"{ind}    gl.append(count)")
+            self.L.append(f"{ind}mon.write(gl[-1])")
+            self.L.append(f"{ind}mon.write(gl[-3])")
+            self.L.append(f"{ind}if count > 2:")
+            self.L.append(f"{ind}    gl.remove(count)")
+            self.features.add("guarded-append-negative-index")
         if getattr(self, "swap_pair", None) and r.random() < 0.6 and \
                 len(self.lists[self.swap_pair[0]]["vals"]) == len(self.lists[self.swap_pair[1]]["vals"]) > 0:
             # swapping on every pass is only index-safe (and len()-stable) for lists of equal length
